@@ -32,6 +32,7 @@ func New() *TextField {
 func (tf *TextField) HandleEvent(ev vaxis.Event, ph vxfw.EventPhase) (vxfw.Command, error) {
 	switch ev := ev.(type) {
 	case vaxis.Key:
+		tf.sync()
 		if ev.EventType == vaxis.EventRelease {
 			return nil, nil
 		}
@@ -115,6 +116,16 @@ func (tf *TextField) checkChanged(cmd vxfw.Command, pre string) (vxfw.Command, e
 	return cmd, nil
 }
 
+// sync brings the cached grapheme count in line with Value and keeps the cursor
+// within the text. Value is exported: an application assigns it to give the
+// field its content
+func (tf *TextField) sync() {
+	tf.n = graphemeCountInString(tf.Value)
+	if tf.cursor > tf.n {
+		tf.cursor = tf.n
+	}
+}
+
 func (tf *TextField) Reset() {
 	tf.n = 0
 	tf.Value = ""
@@ -128,6 +139,7 @@ func (tf *TextField) InsertStringAtCursor(s string) vxfw.Command {
 }
 
 func (tf *TextField) CursorTo(i uint) vxfw.Command {
+	tf.sync()
 	if i > tf.n {
 		i = tf.n
 	}
@@ -142,6 +154,7 @@ func (tf *TextField) CursorTo(i uint) vxfw.Command {
 }
 
 func (tf *TextField) DeleteCharRightOfCursor() vxfw.Command {
+	tf.sync()
 	// Nothing to do if at end of line
 	if tf.n == tf.cursor {
 		return nil
@@ -170,6 +183,7 @@ func (tf *TextField) DeleteCharRightOfCursor() vxfw.Command {
 }
 
 func (tf *TextField) DeleteCharLeftOfCursor() vxfw.Command {
+	tf.sync()
 	// Nothing to do if at beginning of line
 	if tf.cursor == 0 {
 		return nil
@@ -199,6 +213,7 @@ func (tf *TextField) DeleteCharLeftOfCursor() vxfw.Command {
 }
 
 func (tf *TextField) DeleteCursorToEndOfLine() vxfw.Command {
+	tf.sync()
 	if tf.cursor == tf.n {
 		return nil
 	}
